@@ -48,7 +48,7 @@ def validate(
     cfg: Optional[str],
     obs: Sequence[Any],
     what: str,
-    chunk: int = 2500,
+    chunk: Optional[int] = None,
     parallel: int = 4,
     workers: int = 4,
     timeout: int = 1500,
@@ -56,6 +56,9 @@ def validate(
 ) -> Tuple[List[Dict[str, Any]], List[List[int]]]:
     """Run the V spec over all observations.  Returns (violations with global 0-based index `n`, counters: one
     list of ints per chunk taken from the '@@PRINT@@ counts' line)."""
+    if chunk is None:
+        # as many chunks as parallel TLC processes, but neither tiny (JVM start) nor huge (JSON loading) ones
+        chunk = min(4100, max(150, -(-len(obs) // parallel)))
     parts = [list(obs[a : a + chunk]) for a in range(0, len(obs), chunk)]
 
     def one(k: int) -> core.TlcResult:
